@@ -23,7 +23,8 @@ from . import lib
 def run(ctx):
     q = ctx.quick
     if ctx.replay:
-        raise lib.ToolError("re-run the check: inputs are regenerated from the seed")
+        ctx.regenerate()
+        q = ctx.quick
     vec = ctx.path("vec.ndjson")
     g = lib.tlc("text/ViewTreeGen", "ViewTreeGen.cfg", env={"OUT": vec, "SAMPLE": "1500" if q else "0"}, workers=1, seed=ctx.seed, check=True)
     jsonable = {"probe", "text", "flex", "container", "tag"}
